@@ -105,6 +105,7 @@ type Agent struct {
 	socks5Srv     *socks5.Server
 	exitHandler   *exit.Handler
 	exitHandlerMu sync.Mutex // Guards on-demand exit handler creation
+	routeManageMu sync.Mutex // Serializes ManageRoute (route manager and exit allow-list change together)
 	healthServer  *health.Server
 	sleepMgr      *sleep.Manager    // Sleep mode manager (nil if not enabled)
 	sealedBox     *crypto.SealedBox // Management key encryption (nil if not configured)
@@ -1360,6 +1361,13 @@ func (a *Agent) ensureExitHandler() *exit.Handler {
 
 // ManageRoute handles dynamic route management (add/remove/list).
 func (a *Agent) ManageRoute(action, network string, metric uint16) (*health.RouteManageResult, error) {
+	// An add or remove updates the routing manager and then the exit handler's
+	// allow-list. Concurrent calls (HTTP API, remote control requests) must not
+	// interleave between the two steps: "add X" racing with "remove X" could leave X
+	// in the allow-list with no dynamic route behind it.
+	a.routeManageMu.Lock()
+	defer a.routeManageMu.Unlock()
+
 	switch action {
 	case "add":
 		_, ipNet, err := net.ParseCIDR(network)
